@@ -2,6 +2,7 @@ package rules
 
 import (
 	"fmt"
+	"go/constant"
 	"go/token"
 	"go/types"
 	"sort"
@@ -160,6 +161,39 @@ func (m *matchModel) branchPrivacy(rule string) int {
 // sliceParams: names of the parameters (of the value's own function) a value
 // derives from, through data operations and in-package calls.
 func paramSources(v ssa.Value, seen map[ssa.Value]bool, out map[string]bool) {
+	paramSourcesD(v, seen, out, 0)
+}
+
+// calleeSources: for result ri of the static in-package callee of cl, the sources inside the callee mapped to
+// the call's arguments: what the caller's value derives from.  ok=false when the callee cannot be looked into.
+func calleeSources(cl *ssa.Call, ri int, seen map[ssa.Value]bool, out map[string]bool, depth int) bool {
+	sc := cl.Common().StaticCallee()
+	if sc == nil || sc.Blocks == nil || depth > 4 || cl.Parent() == nil || sc.Pkg != cl.Parent().Pkg || ri >= sc.Signature.Results().Len() {
+		return false
+	}
+	inner := map[string]bool{}
+	for _, b := range sc.Blocks {
+		if ret, ok := b.Instrs[len(b.Instrs)-1].(*ssa.Return); ok && ri < len(ret.Results) {
+			paramSourcesD(ret.Results[ri], map[ssa.Value]bool{}, inner, depth+1)
+		}
+	}
+	byName := map[string]int{}
+	for i, p := range sc.Params {
+		byName[p.Name()] = i
+	}
+	for k := range inner {
+		if i, isParam := byName[k]; isParam {
+			if i < len(cl.Common().Args) {
+				paramSourcesD(cl.Common().Args[i], seen, out, depth)
+			}
+			continue
+		}
+		out[k] = true // a lookup made by the callee
+	}
+	return true
+}
+
+func paramSourcesD(v ssa.Value, seen map[ssa.Value]bool, out map[string]bool, depth int) {
 	if seen[v] {
 		return
 	}
@@ -170,23 +204,32 @@ func paramSources(v ssa.Value, seen map[ssa.Value]bool, out map[string]bool) {
 	case *ssa.Const, *ssa.Global, *ssa.Function, *ssa.Alloc, *ssa.MakeMap, *ssa.MakeSlice:
 	case *ssa.Phi:
 		for _, e := range x.Edges {
-			paramSources(e, seen, out)
+			paramSourcesD(e, seen, out, depth)
 		}
+	case *ssa.Extract:
+		// a result of a helper of the package: what that result is made of, in terms of this call's arguments
+		if cl, ok := x.Tuple.(*ssa.Call); ok && calleeSources(cl, x.Index, seen, out, depth) {
+			return
+		}
+		paramSourcesD(x.Tuple, seen, out, depth)
 	case *ssa.Call:
+		if _, isTup := x.Type().(*types.Tuple); !isTup && calleeSources(x, 0, seen, out, depth) {
+			return
+		}
 		for _, a := range x.Common().Args {
-			paramSources(a, seen, out)
+			paramSourcesD(a, seen, out, depth)
 		}
 		if x.Common().IsInvoke() {
-			paramSources(x.Common().Value, seen, out)
+			paramSourcesD(x.Common().Value, seen, out, depth)
 		}
 	case *ssa.Lookup:
-		paramSources(x.X, seen, out)
+		paramSourcesD(x.X, seen, out, depth)
 		out["<lookup in "+types.TypeString(x.X.Type(), func(p *types.Package) string { return p.Name() })+">"] = true
 	default:
 		if in, ok := v.(ssa.Instruction); ok {
 			for _, op := range in.Operands(nil) {
 				if *op != nil {
-					paramSources(*op, seen, out)
+					paramSourcesD(*op, seen, out, depth)
 				}
 			}
 		}
@@ -398,7 +441,7 @@ func C01(c *Ctx) {
 				}
 				// and the not-found edge returns no match
 				no := iff.Block().Succs[1]
-				if ret, isRet := no.Instrs[len(no.Instrs)-1].(*ssa.Return); !isRet || !ssau.IsNilConst(ret.Results[0]) {
+				if !endsNoMatch(no, nil, m.fns, 0) {
 					ok5 = false
 				}
 			}
@@ -432,6 +475,116 @@ func C01(c *Ctx) {
 	}
 	sort.Strings(fr)
 	c.R.Extra["functions_returning_fresh_storage"] = fr
+}
+
+// endsNoMatch: block b returns "no match": a nil first result, or — in a helper that reports with a flag — false
+// (the constant, or the flag `falseVal` already known to be false), and every caller of the helper answers a false
+// flag with "no match" in turn.
+func endsNoMatch(b *ssa.BasicBlock, falseVal ssa.Value, fns []*ssa.Function, depth int) bool {
+	ret, isRet := b.Instrs[len(b.Instrs)-1].(*ssa.Return)
+	if !isRet || len(ret.Results) == 0 || depth > 6 {
+		return false
+	}
+	r0 := ret.Results[0]
+	if ssau.IsNilConst(r0) {
+		return true
+	}
+	isFalse := falseVal != nil && r0 == falseVal
+	if cst, isC := r0.(*ssa.Const); isC && cst.Value != nil && cst.Value.Kind() == constant.Bool && !constant.BoolVal(cst.Value) {
+		isFalse = true
+	}
+	if !isFalse {
+		return false
+	}
+	sites := callSitesOf(b.Parent(), fns)
+	if len(sites) == 0 {
+		return false
+	}
+	for _, s := range sites {
+		cl, isCall := s.(*ssa.Call)
+		if !isCall {
+			return false
+		}
+		res := func(v ssa.Value) (int, bool) {
+			if v == ssa.Value(cl) {
+				return 0, true
+			}
+			if ex, ok := v.(*ssa.Extract); ok && ex.Tuple == ssa.Value(cl) {
+				return ex.Index, true
+			}
+			return 0, false
+		}
+		// walk from the call along the branches that this return decides, up to the test of the flag
+		cur := cl.Block()
+		var flag ssa.Value
+		if _, isTup := cl.Type().(*types.Tuple); !isTup {
+			flag = cl
+		} else {
+			for _, r := range ssau.Referrers(cl) {
+				if ex, ok := r.(*ssa.Extract); ok && ex.Index == 0 {
+					flag = ex
+				}
+			}
+		}
+		if flag == nil {
+			return false
+		}
+		done := false
+		for step := 0; step < 8 && !done; step++ {
+			switch last := cur.Instrs[len(cur.Instrs)-1].(type) {
+			case *ssa.Jump:
+				cur = cur.Succs[0]
+			case *ssa.Return:
+				if !endsNoMatch(cur, flag, fns, depth+1) {
+					return false
+				}
+				done = true
+			case *ssa.If:
+				cond, pol := last.Cond, true
+				if u, ok := cond.(*ssa.UnOp); ok && u.Op == token.NOT {
+					cond, pol = u.X, false
+				}
+				if cond == flag {
+					// the flag is false here
+					next := cur.Succs[1]
+					if !pol {
+						next = cur.Succs[0]
+					}
+					// the branch taken on a false flag answers "no match" (possibly handing the flag on)
+					if !endsNoMatch(next, flag, fns, depth+1) {
+						return false
+					}
+					done = true
+					continue
+				}
+				bo, isB := cond.(*ssa.BinOp)
+				if !isB || (bo.Op != token.EQL && bo.Op != token.NEQ) {
+					return false
+				}
+				x, y := bo.X, bo.Y
+				if ssau.IsNilConst(x) {
+					x, y = y, x
+				}
+				j, ok := res(x)
+				if !ok || !ssau.IsNilConst(y) || j >= len(ret.Results) || !ssau.IsNilConst(ret.Results[j]) {
+					return false
+				}
+				// result j is nil on this return
+				isTrue := (bo.Op == token.EQL) == pol
+				if isTrue {
+					cur = cur.Succs[0]
+				} else {
+					cur = cur.Succs[1]
+				}
+			default:
+				return false
+			}
+		}
+		if !done {
+			return false
+		}
+	}
+	return true
 }
 
 func relTok(s string) token.Token {
@@ -599,36 +752,134 @@ func c01Inequal(c *Ctx, m *matchModel) {
 	}
 	// prefix list order
 	var list []string
-	for _, g := range m.fns {
-		ssau.Instrs(g, func(in ssa.Instruction) {
-			if al, ok := in.(*ssa.Alloc); ok {
-				if arr, isArr := al.Type().Underlying().(*types.Pointer).Elem().Underlying().(*types.Array); isArr {
-					if b, isB := arr.Elem().Underlying().(*types.Basic); isB && b.Kind() == types.String {
-						items := make([]string, arr.Len())
-						isOps := false
-						for _, r := range ssau.Referrers(al) {
-							if ia, ok := r.(*ssa.IndexAddr); ok {
-								if idx, isC := ssau.ConstInt(ia.Index); isC {
-									for _, r2 := range ssau.Referrers(ia) {
-										if st, ok := r2.(*ssa.Store); ok {
-											if s, isS := ssau.ConstString(st.Val); isS {
-												items[idx] = s
-												if relTok(s) != token.ILLEGAL {
-													isOps = true
-												}
-											}
-										}
-									}
+	// opItems: the string constants stored into the elements of an array, if one of them is an operator
+	opItems := func(al ssa.Value) []string {
+		pt, isP := al.Type().Underlying().(*types.Pointer)
+		if !isP {
+			return nil
+		}
+		arr, isArr := pt.Elem().Underlying().(*types.Array)
+		if !isArr {
+			return nil
+		}
+		if b, isB := arr.Elem().Underlying().(*types.Basic); !isB || b.Kind() != types.String {
+			return nil
+		}
+		items := make([]string, arr.Len())
+		isOps := false
+		for _, r := range ssau.Referrers(al) {
+			if ia, ok := r.(*ssa.IndexAddr); ok {
+				if idx, isC := ssau.ConstInt(ia.Index); isC {
+					for _, r2 := range ssau.Referrers(ia) {
+						if st, ok := r2.(*ssa.Store); ok {
+							if s, isS := ssau.ConstString(st.Val); isS {
+								items[idx] = s
+								if relTok(s) != token.ILLEGAL {
+									isOps = true
 								}
 							}
-						}
-						if isOps {
-							list = items
 						}
 					}
 				}
 			}
+		}
+		if !isOps {
+			return nil
+		}
+		return items
+	}
+	listWritten := ""
+	seenGlobal := map[*ssa.Global]bool{}
+	for _, g := range m.fns {
+		ssau.Instrs(g, func(in ssa.Instruction) {
+			if al, ok := in.(*ssa.Alloc); ok {
+				if items := opItems(al); items != nil {
+					list = items
+				}
+			}
+			// a list kept in a package-level variable: what the package initialiser stores there, provided nothing
+			// else ever stores to the variable
+			for _, opp := range in.Operands(nil) {
+				gl, isG := (*opp).(*ssa.Global)
+				if !isG || seenGlobal[gl] || gl.Pkg == nil {
+					continue
+				}
+				seenGlobal[gl] = true
+				var elem types.Type
+				switch t := gl.Type().Underlying().(*types.Pointer).Elem().Underlying().(type) {
+				case *types.Slice:
+					elem = t.Elem()
+				case *types.Array:
+					elem = t.Elem()
+				}
+				if elem == nil {
+					continue
+				}
+				if b, isB := elem.Underlying().(*types.Basic); !isB || b.Kind() != types.String {
+					continue
+				}
+				ini := gl.Pkg.Func("init")
+				var items []string
+				for _, h := range append(c.P.FuncsIn(prog.PkgOf(g)), ini) {
+					if h == nil {
+						continue
+					}
+					ssau.Instrs(h, func(in2 ssa.Instruction) {
+						switch y := in2.(type) {
+						case *ssa.Store:
+							if y.Addr != ssa.Value(gl) {
+								return
+							}
+							if h != ini {
+								listWritten = c.pos(y)
+								return
+							}
+							if sv, isS := y.Val.(*ssa.Slice); isS && sv.Low == nil && sv.High == nil {
+								if it := opItems(sv.X); it != nil {
+									items = it
+								}
+							}
+						case *ssa.IndexAddr:
+							// an array variable is filled element by element
+							if y.X != ssa.Value(gl) {
+								return
+							}
+							for _, r2 := range ssau.Referrers(y) {
+								st, isSt := r2.(*ssa.Store)
+								if !isSt || st.Addr != ssa.Value(y) {
+									continue
+								}
+								if h != ini {
+									listWritten = c.pos(st)
+									continue
+								}
+								arr := gl.Type().Underlying().(*types.Pointer).Elem().Underlying().(*types.Array)
+								if items == nil {
+									items = make([]string, arr.Len())
+								}
+								if idx, isC := ssau.ConstInt(y.Index); isC {
+									if sv, isS := ssau.ConstString(st.Val); isS && int(idx) < len(items) {
+										items[idx] = sv
+									}
+								}
+							}
+						}
+					})
+				}
+				isOps := false
+				for _, it := range items {
+					if relTok(it) != token.ILLEGAL {
+						isOps = true
+					}
+				}
+				if isOps {
+					list = items
+				}
+			}
 		})
+	}
+	if listWritten != "" {
+		list = nil
 	}
 	okList := len(list) > 0
 	for i := range list {
@@ -753,18 +1004,19 @@ func C02(c *Ctx) {
 					}
 				}
 			}
-			c.R.Check(okFresh, "C02-R2", key, c.pos(in), "deletes from a copy of the ranged map made in this iteration", "a consumed element is removed from a map shared with other alternatives (or from the map being ranged)")
-			// pairing: the copy is appended to the list of remaining-element maps in the same block as the success is recorded
-			appended := false
-			for _, r := range ssau.Referrers(mp) {
-				if st, isSt := r.(*ssa.Store); isSt && st.Val == mp {
-					if ia, isIA := st.Addr.(*ssa.IndexAddr); isIA {
-						if _, isAl := ia.X.(*ssa.Alloc); isAl {
-							appended = true
-						}
+			// the consumption sits in a helper of its own (outside any loop there): the helper copies the map it is
+			// given on every call, so the copy is made in the iteration that calls it — the map handed in must be
+			// the one that iteration ranges over
+			if cl, isCall := mp.(*ssa.Call); isCall && L == nil && !okFresh {
+				if sc := cl.Common().StaticCallee(); sc != nil && m.fresh[sc] >= 0 && len(cl.Common().Args) > 0 {
+					if pa, isP := cl.Common().Args[0].(*ssa.Parameter); isP && pa.Parent() == f {
+						okFresh = m.rangedAtEverySite(f, paramIdx(pa), 0)
 					}
 				}
 			}
+			c.R.Check(okFresh, "C02-R2", key, c.pos(in), "deletes from a copy of the ranged map made in this iteration", "a consumed element is removed from a map shared with other alternatives (or from the map being ranged)")
+			// pairing: the copy is appended to the list of remaining-element maps in the same block as the success is recorded
+			appended := m.recordedCopy(mp, 0)
 			c.R.Check(appended, "C02-R2", key+" recorded", c.pos(in), "the reduced copy is what is recorded for this alternative", "the reduced copy is not recorded with the success")
 		})
 	}
@@ -952,6 +1204,147 @@ func C02(c *Ctx) {
 	if m.branchPrivacy("C02-R5") == 0 {
 		c.R.Break("C02-R5: no bind or writer call inside a loop over alternatives found")
 	}
+}
+
+// siteArgs is a call of a function with the arguments lined up with the function's parameters (a call through a
+// bound method value `x.m` has the receiver among the closure's bindings).
+type siteArgs struct {
+	site ssa.CallInstruction
+	args []ssa.Value
+}
+
+// sitesWithArgs lists the static calls of fn inside fns and the calls of fn through a bound method value.
+func sitesWithArgs(fn *ssa.Function, fns []*ssa.Function) []siteArgs {
+	var out []siteArgs
+	for _, g := range fns {
+		ssau.Instrs(g, func(in ssa.Instruction) {
+			ci, ok := in.(ssa.CallInstruction)
+			if !ok {
+				return
+			}
+			if ci.Common().StaticCallee() == fn {
+				out = append(out, siteArgs{ci, ci.Common().Args})
+				return
+			}
+			mc, isMC := ci.Common().Value.(*ssa.MakeClosure)
+			if !isMC || len(mc.Bindings) != 1 {
+				return
+			}
+			w, isF := mc.Fn.(*ssa.Function)
+			if !isF || w.Synthetic == "" || w.Name() != fn.Name()+"$bound" {
+				return
+			}
+			calls := false
+			ssau.Instrs(w, func(in2 ssa.Instruction) {
+				if c2, ok := in2.(ssa.CallInstruction); ok && c2.Common().StaticCallee() == fn {
+					calls = true
+				}
+			})
+			if calls {
+				out = append(out, siteArgs{ci, append([]ssa.Value{mc.Bindings[0]}, ci.Common().Args...)})
+			}
+		})
+	}
+	return out
+}
+
+// rangedAtEverySite: every call of f sits in a loop whose operand is the argument handed to parameter pi (or, when
+// the call is itself outside any loop, hands on a parameter of its own function for which the same holds).
+func (m *matchModel) rangedAtEverySite(f *ssa.Function, pi int, depth int) bool {
+	sites := sitesWithArgs(f, m.fns)
+	if len(sites) == 0 || depth > 3 || pi < 0 {
+		return false
+	}
+	for _, s := range sites {
+		if pi >= len(s.args) {
+			return false
+		}
+		g := s.site.Parent()
+		a := s.args[pi]
+		if L := flow.InnermostLoop(flow.Loops(g), s.site.Block()); L != nil {
+			if op := loopOperand(L); op == nil || op != a {
+				return false
+			}
+			continue
+		}
+		pa, isP := a.(*ssa.Parameter)
+		if !isP || pa.Parent() != g || !m.rangedAtEverySite(g, paramIdx(pa), depth+1) {
+			return false
+		}
+	}
+	return true
+}
+
+// recordedCopy: the map v ends up in a list — it is appended to one here, or handed to a helper of the matcher
+// that appends its parameter, or returned to callers that all do one of these with the result.
+func (m *matchModel) recordedCopy(v ssa.Value, depth int) bool {
+	if depth > 4 {
+		return false
+	}
+	for _, r := range ssau.Referrers(v) {
+		switch x := r.(type) {
+		case *ssa.Store:
+			if x.Val != v {
+				continue
+			}
+			if ia, isIA := x.Addr.(*ssa.IndexAddr); isIA {
+				if _, isAl := ia.X.(*ssa.Alloc); isAl {
+					return true
+				}
+			}
+		case *ssa.Return:
+			f := x.Parent()
+			ri := -1
+			for i, res := range x.Results {
+				if res == v {
+					ri = i
+				}
+			}
+			sites := sitesWithArgs(f, m.fns)
+			if ri < 0 || len(sites) == 0 {
+				continue
+			}
+			all := true
+			for _, s := range sites {
+				cl, isCall := s.site.(*ssa.Call)
+				if !isCall {
+					all = false
+					break
+				}
+				var res ssa.Value = cl
+				if _, isTup := cl.Type().(*types.Tuple); isTup {
+					res = nil
+					for _, r2 := range ssau.Referrers(cl) {
+						if ex, ok := r2.(*ssa.Extract); ok && ex.Index == ri {
+							res = ex
+						}
+					}
+				}
+				if res == nil || !m.recordedCopy(res, depth+1) {
+					all = false
+					break
+				}
+			}
+			if all {
+				return true
+			}
+		case ssa.CallInstruction:
+			var callee *ssa.Function
+			var args []ssa.Value
+			if sc := x.Common().StaticCallee(); sc != nil && m.inSet[sc] {
+				callee, args = sc, x.Common().Args
+			}
+			if callee == nil {
+				continue
+			}
+			for i, a := range args {
+				if a == v && i < len(callee.Params) && m.recordedCopy(callee.Params[i], depth+1) {
+					return true
+				}
+			}
+		}
+	}
+	return false
 }
 
 // negationOf: f does nothing but return the negation of a call of the function named name on its own operands.
